@@ -1268,6 +1268,10 @@ class ReprStructure:
             c for c in self.columns
             if c.name not in columns_names
         ]
+        # without a removed 'break_by' column other records may become visible,
+        # so the actual widths of the columns are to be detected again
+        for c in self.columns:
+            c.width = None
 
     def make_record_ch_chunks_all(self, record, cp) -> [[CHText.Chunk]]:
         """Create intermediate data for the record's text representation.
